@@ -237,7 +237,23 @@ func c05(r *ev.Run) {
 	}
 	// (3) parsed suite strings the library accepts (reduced input set)
 	var n3, acc int64
-	for _, name := range grammarStrings(false) {
+	gs := grammarStrings(false)
+	// and other letter cases of the same strings: the message starts with the text AS GIVEN, whatever the parser folds
+	for i, name := range grammarStrings(false) {
+		switch i % 7 {
+		case 0:
+			gs = append(gs, strings.ToLower(name))
+		case 3:
+			b := []byte(name)
+			for k := range b {
+				if k%2 == 1 && b[k] >= 'A' && b[k] <= 'Z' {
+					b[k] |= 0x20
+				}
+			}
+			gs = append(gs, string(b))
+		}
+	}
+	for _, name := range gs {
 		su, err := otp.NewRawSuite(name)
 		if err != nil {
 			continue
